@@ -198,7 +198,17 @@ def make_scenario(r):
                 else:
                     pairs.append([r.choice(["prov:type", "prov:label", "ex:tag", "prov:value", "ex2:n", "prov:location"]), {"val": rand_plain_value(r)}, r.choice(["qn", "str"])])
             calls.append({"m": "add_attributes", "form": r.choice(["dict", "list"]), "pairs": pairs})
-    return {"mode": "scenario", "kind": kind, "in_bundle": in_bundle, "path": path, "ident": ident, "create": create, "extras": extras, "calls": calls}
+    # less-travelled forms of the creating call: other_attributes as a dict, attribute names as strings, the PROV-DM alias of the
+    # factory (wasGeneratedBy for generation ...), keyword arguments, and the subtype factories (revision / quotation /
+    # primary_source / collection) which add their own prov:type next to the caller's
+    style = {"extras_form": r.choice(["list", "list", "dict"]), "extras_names": r.choice(["qn", "qn", "str"]),
+             "alias": r.random() < 0.4, "kwargs": r.random() < 0.3, "subtype": None}
+    if path == "factory" and kind in ("Derivation", "Entity") and r.random() < 0.7:
+        style["subtype"] = r.choice(["revision", "quotation", "primary_source"]) if kind == "Derivation" else "collection"
+        if r.random() < 0.6 and not any(n == "prov:type" for n, _v in extras):
+            extras.append(["prov:type", rand_plain_value(r)])   # the caller's own type next to the factory's
+    return {"mode": "scenario", "kind": kind, "in_bundle": in_bundle, "path": path, "ident": ident, "create": create, "extras": extras, "calls": calls,
+            "style": style}
 
 
 def make_case(ctx, idx):
@@ -401,10 +411,17 @@ def run_scenario(ctx, case):
                 lib_formal[f] = d.name(spec["ref"], spec["rep"])
                 mpairs.append((PROVNS + f, "ref", ("qn", ref_uri(spec["ref"]))))
     lib_extras = []
+    style = case.get("style") or {"extras_form": "list", "extras_names": "qn", "alias": False, "kwargs": False, "subtype": None}
     for name, v in case["extras"]:
         lib, mv = d.plain(v)
-        lib_extras.append((d.attr_name(name, "qn"), lib))
+        lib_extras.append((d.attr_name(name, style["extras_names"]), lib))
         mpairs.append((attr_uri(name), "val", mv))
+    if style["extras_form"] == "dict" and len({n for n, _v in case["extras"]}) == len(case["extras"]):
+        lib_extras = dict(lib_extras)
+        ctx.count("creation.extras_as_dict")
+    if style["subtype"] and case["path"] == "factory":
+        sub_t = {"revision": "Revision", "quotation": "Quotation", "primary_source": "PrimarySource", "collection": "Collection"}[style["subtype"]]
+        mpairs.append((PROVNS + "type", "val", ("qn", PROVNS + sub_t)))
     ident = d.name(case["ident"], "qn" if case["ident"]["ns"] else "bare") if case["ident"] else None
     path = case["path"]
     receiver_uri = None
@@ -426,14 +443,25 @@ def run_scenario(ctx, case):
                 problems.append("convenience method %s created %d records" % (meth, len(d.scope._records) - n0))
                 return problems, 0
         elif path == "factory":
-            fac = getattr(d.scope, gen.KINDS[kind][0])
+            fname = style["subtype"] or gen.KINDS[kind][0]
+            if style["alias"] and fname in interp.ALIASES:
+                fname = interp.ALIASES[fname]
+                ctx.count("creation.alias_method")
+            fac = getattr(d.scope, fname)
             pos = [lib_formal.get(f) for f in formals]
+            if style["subtype"]:
+                ctx.count("creation.subtype_factory.%s" % style["subtype"])
+            if style["kwargs"]:
+                ctx.count("creation.keyword_arguments")
             if kind in ("Entity", "Agent"):
-                rec = fac(ident, lib_extras)
+                rec = fac(identifier=ident, other_attributes=lib_extras) if style["kwargs"] else fac(ident, lib_extras)
             elif kind == "Activity":
-                rec = fac(ident, pos[0], pos[1], lib_extras)
+                rec = fac(identifier=ident, other_attributes=lib_extras, endTime=pos[1], startTime=pos[0]) if style["kwargs"] \
+                    else fac(ident, pos[0], pos[1], lib_extras)
             elif kind in gen.NO_ID_FACTORY:
-                rec = fac(*pos)
+                rec = fac(**dict(zip(formals, pos))) if style["kwargs"] else fac(*pos)
+            elif style["kwargs"]:
+                rec = fac(identifier=ident, other_attributes=lib_extras, **dict(zip(formals, pos)))
             else:
                 rec = fac(*pos, identifier=ident, other_attributes=lib_extras)
         else:
@@ -630,7 +658,9 @@ def floors(counters, tier, extra):
             out.append("kind %s in only %d scenarios" % (kind, counters.get("scenario.kind." + kind, 0)))
     for k in ("call.add_attributes.dict.ok", "call.add_attributes.list.ok", "call.add_attributes.dict.refuse", "call.add_attributes.list.refuse",
               "call.set_time.str", "call.set_time.dt", "formal_pair.ref", "formal_pair.time", "call.add_asserted_type.native_lit",
-              "program_cases", "corpus.loaded"):
+              "program_cases", "corpus.loaded", "creation.alias_method", "creation.extras_as_dict", "creation.keyword_arguments",
+              "creation.subtype_factory.revision", "creation.subtype_factory.quotation", "creation.subtype_factory.primary_source",
+              "creation.subtype_factory.collection"):
         if counters.get(k, 0) < need // 4:
             out.append("%s observed only %d times" % (k, counters.get(k, 0)))
     if tier == "thorough" and counters.get("suite.NF.evaluations", 0) < 1000:
